@@ -73,6 +73,9 @@ class ExprMixin:
                 return NONE
             if isinstance(v, SInt):
                 return self.int2val(v.t)
+            if isinstance(v, SBool):
+                # bool is an int subclass: True == 1 and hash(True) == hash(1), so as a dict key / set member it IS the integer
+                return self.int2val(z3.If(v.t, 1, 0))
             if isinstance(v, SFunc) and v.how == 'opaque':
                 return v.a[0]
         elif k == 'str':
